@@ -149,9 +149,10 @@ def run_souden(case, R):
     a, sig, Px = rank1(rng, D, F, lead)
     Pn, real_noise = noise_psd(rng, case, D, (*lead, F))
     ref = int(rng.integers(0, D))
+    ref_arg = ref - D if case['rs'][-1] % 4 == 1 else ref          # a reference channel counted from the end (NumPy style) names the same channel
     info = dict(D=D, F=F, lead=list(lead), cond=case['cond'], ref=ref, real_noise=real_noise)
     try:
-        w = get_mvdr_vector_souden(Px, Pn, ref_channel=ref)
+        w = get_mvdr_vector_souden(Px, Pn, ref_channel=ref_arg)
     except Exception as e:
         if not instr.is_library_exception(e):
             raise
@@ -167,7 +168,7 @@ def run_souden(case, R):
     rv = float(np.abs(w - mv).max() / np.abs(mv).max())
     R.check('C11.souden', rv <= tol, 'souden/equals-scaled-mvdr', f'Souden MVDR deviates from the MVDR vector scaled to the reference channel by {rv:.3e}', dev=rv, **info)
     c1, c2 = 10 ** rng.uniform(-3, 3, size=2)
-    w2 = get_mvdr_vector_souden(Px * c1, Pn * c2, ref_channel=ref)
+    w2 = get_mvdr_vector_souden(Px * c1, Pn * c2, ref_channel=ref_arg)
     sv = float(np.abs(w2 - w).max() / np.abs(w).max())
     R.check('C11.souden', sv <= tol, 'souden/scale-invariance', f'Souden MVDR changes by {sv:.3e} under positive scaling of the PSDs', dev=sv, **info)
     R.mark_nontrivial('souden', D, min(F, 2), list(lead), int(np.log10(case['cond'])))
@@ -181,11 +182,12 @@ def run_wmwf(case, R):
     a, sig, Px = rank1(rng, D, F, lead)
     Pn, real_noise = noise_psd(rng, case, D, (*lead, F))
     ref = int(rng.integers(0, D))
+    ref_arg = ref - D if case['rs'][-1] % 4 == 1 else ref          # a reference channel counted from the end (NumPy style) names the same channel
     if case['rs'][-1] % 3 == 0 and mu > 0:
         mu = int(max(1, round(mu)))            # integer-typed distortion weights (0, 1, 100 ...) are valid numbers too
     info = dict(D=D, F=F, lead=list(lead), cond=case['cond'], ref=ref, mu=mu, mu_type=type(mu).__name__, real_noise=real_noise)
     try:
-        w = get_wmwf_vector(Px, Pn, reference_channel=ref, distortion_weight=mu)
+        w = get_wmwf_vector(Px, Pn, reference_channel=ref_arg, distortion_weight=mu)
     except Exception as e:
         if not instr.is_library_exception(e):
             raise
@@ -198,7 +200,7 @@ def run_wmwf(case, R):
         kap = float(np.linalg.cond(Px + mu * Pn).max())       # the reference solve has its own conditioning
         R.check('C11.wmwf', rv <= tol + 1e3 * np.finfo(float).eps * kap, 'wmwf/exact-minimiser', f'WMWF deviates from (Phi_xx + mu Phi_nn)^-1 Phi_xx e_ref by {rv:.3e}', dev=rv, **info)
     else:
-        s = get_mvdr_vector_souden(Px, Pn, ref_channel=ref)
+        s = get_mvdr_vector_souden(Px, Pn, ref_channel=ref_arg)
         rv = float(np.abs(w - s).max() / np.abs(s).max())
         R.check('C11.wmwf', rv <= tol, 'wmwf/mu-zero-is-souden', f'WMWF(mu=0) deviates from Souden MVDR by {rv:.3e}', dev=rv, **info)
     # channel_selection_vector: a one-hot selection is the explicit reference channel
@@ -212,7 +214,7 @@ def run_wmwf(case, R):
             raise
         R.count(f'channel_selection_vector raised {type(e).__name__}')
     c = float(10 ** rng.uniform(-3, 3))
-    w2 = get_wmwf_vector(Px * c, Pn * c, reference_channel=ref, distortion_weight=mu)
+    w2 = get_wmwf_vector(Px * c, Pn * c, reference_channel=ref_arg, distortion_weight=mu)
     sv = float(np.abs(w2 - w).max() / np.abs(w).max())
     R.check('C11.wmwf', sv <= tol, 'wmwf/joint-scale-invariance', f'WMWF changes by {sv:.3e} under joint scaling of both PSDs', dev=sv, **info)
     R.mark_nontrivial('wmwf', D, min(F, 2), list(lead), mu > 0)
